@@ -20,6 +20,7 @@ CLASSES["pathch"] = "({x} != 63 and {x} != 35)"  # a URL path never contains ? o
 CLASSES["segch"] = "({x} == 46 or {x} == 37 or {x} == 50 or {x} == 101 or {x} == 69 or {x} == 47 or {x} == 97 or {x} == 70 or {x} == 102)"
 CLASSES["urlpath"] = "((97 <= {x} <= 122) or (48 <= {x} <= 57) or {x} == 46 or {x} == 47 or {x} == 37 or {x} == 45 or {x} == 95 or {x} == 126 or (65 <= {x} <= 70))"
 CLASSES["userinfo"] = "((97 <= {x} <= 122) or (48 <= {x} <= 57) or {x} == 37 or {x} == 58 or {x} == 46 or {x} == 45 or (65 <= {x} <= 70) or {x} == 33 or {x} == 36)"
+CLASSES["in_q_hash"] = "({x} == 63 or {x} == 35 or {x} == 97)"
 CLASSES["in_hH"] = "({x} == 104 or {x} == 72)"
 CLASSES["in_tT"] = "({x} == 116 or {x} == 84)"
 CLASSES["query"] = "((97 <= {x} <= 122) or (48 <= {x} <= 57) or {x} == 37 or {x} == 61 or {x} == 38 or {x} == 63 or {x} == 47 or (65 <= {x} <= 70))"
@@ -147,6 +148,10 @@ def check_url_parts(data, what="find_urls"):
                 if not same_bytes(c.value, percent_decode(text)):
                     return hx.fail(f"{c.type}: value is not the percent-decoded text it covers", data=data, url=u, child=c,
                                    covered=bytes(text) if not hx.SYMBOLIC else None), True
+                if c.type == "network.url.fragment" and not (c.start >= 1 and val[c.start - 1] == 35):
+                    return hx.fail("fragment child is not preceded by '#'", data=data, url=u, child=c), True
+                if c.type == "network.url.query" and not (c.start >= 1 and val[c.start - 1] == 63):
+                    return hx.fail("query child is not preceded by '?'", data=data, url=u, child=c), True
             elif c.type == "network.url.path":
                 want, removed = ref_normalize_path(text)
                 if not same_bytes(c.value, want):
@@ -170,6 +175,9 @@ _add("url_path_hole3", Tmpl(b"http://example.com/", (3, "urlpath"), b"/x"), chec
 _add("url_path_pct", Tmpl(b"http://example.com/a%", (2, "hex"), b"b/.", (1, "urlpath")), check_url_parts, timeout=600, funcs=FU)
 _add("url_userinfo_hole", Tmpl(b"https://u", (2, "userinfo"), b"@example.com/p"), check_url_parts, timeout=600, funcs=FU)
 _add("url_userinfo_escape", Tmpl(b"https://u%", (2, "hex"), b"r:pw@example.com/p"), check_url_parts, timeout=600, funcs=FU)
+_add("url_empty_query_fragment", Tmpl(b"ftp://example.com/p?", (1, "query"), b"#", (2, "query")), check_url_parts, timeout=600, funcs=FU,
+     extra_pre="True")
+_add("url_query_or_fragment_marker", Tmpl(b"http://example.com/p", (1, "in_q_hash"), (1, "in_q_hash"), b"ab"), check_url_parts, timeout=600, funcs=FU)
 _add("url_query_fragment", Tmpl(b"ftp://example.com/p?", (2, "query"), b"#", (1, "query")), check_url_parts, timeout=600, funcs=FU)
 _add("url_scheme_case_port", Tmpl((1, "in_hH"), b"T", (1, "in_tT"), b"p://example.com:", (2, "digit"), b"/"), check_url_parts, timeout=600, funcs=FU)
 _add("url_ip_host", Tmpl(b"http://10.0.", (1, "digit"), b".1/a?b"), check_url_parts, timeout=900, funcs=FU)
@@ -202,3 +210,12 @@ FW = ["multidecoder.decoders.path.find_windows_path"]
 CLASSES["segdot"] = "((97 <= {x} <= 122) or {x} == 46 or {x} == 92)"
 _add("winpath_dots_and_filename", Tmpl(b" c:\\aaa\\", (2, "segdot"), b"\\bbb\\tool.exe "), winpath_parts, funcs=FW, timeout=600)
 _add("winpath_unc_host_and_filename", Tmpl(b" \\\\10.0.0.", (1, "digit"), b"\\sh\\", (2, "segdot"), b"\\a.dll "), winpath_parts, funcs=FW, timeout=600)
+
+
+def normpath_abs_dots8(d0, d1, d2, d3, d4, d5, d6, d7):
+    return _np(b"/" + bytes([d0, d1, d2, d3, d4, d5, d6, d7]))
+
+
+OBLIGATIONS.append(Ob("normpath_abs_dots8", normpath_abs_dots8, bytes_params("d", 8), pre=" and ".join(CLASSES["segch"].format(x=f"d{i}") for i in range(8)),
+                      tier="thorough", timeout=2400, layer="B", functions=FN, splits=[f"d0 == {v}" for v in (46, 37, 50, 101, 69, 47, 97, 70, 102)],
+                      bound="'/' + 8 bytes over {. % 2 e E / a F f}"))
